@@ -11,8 +11,8 @@ from harness.framework import Suite
 from harness.swctext import Expect, cps, sci_value
 
 PID = "C15"
-TRANSLATE_ALGO = ["AlgoAsc"]   # Gen/AlgoAsc.lean: the token-level Parser and from_ast / walk_ast of neurolucida_asc.py, regenerated on every run
-DRIVER_FILES = ["SwcVerif/Model/AlgoRunAsc.lean"]
+TRANSLATE_ALGO = ["AlgoAsc", "AlgoAscLex"]   # Gen/AlgoAsc.lean: the token-level Parser and from_ast / walk_ast of neurolucida_asc.py, regenerated on every run
+DRIVER_FILES = ["SwcVerif/Model/AlgoRunAsc.lean", "SwcVerif/Model/AlgoRunAscLex.lean"]
 LEAN_MODS = ["SwcVerif.Props.C15", "SwcVerif.Props.C15Gen"]
 THEOREMS = [
     "C15.convert_faithful", "C15.rows_count", "C15.trailing_ignored", "C15.comment_skipped", "C15.color_skipped", "C15.leading_comment_skipped",
@@ -714,7 +714,7 @@ class Convert(Suite):
 
     def lines(self, case, res):
         if "exc" in res:
-            return ([(f"asc cp={cps(case['text'])}", "error")] + _gasc_lines(case, res)) if res["exc"] == "ValueError" else []
+            return ([(f"asc cp={cps(case['text'])}", "error")] + _gasc_lines(case, res) + _gasclex_lines(case, res)) if res["exc"] == "ValueError" else []
 
         def same(got):
             if not got.startswith("ok"):
@@ -729,7 +729,7 @@ class Convert(Suite):
                     return False
             return True
 
-        return [(f"asc cp={cps(case['text'])}", Expect(same, "impl=" + repr({k: res[k] for k in ("pid", "type")})[:600]))] + _gasc_lines(case, res)
+        return [(f"asc cp={cps(case['text'])}", Expect(same, "impl=" + repr({k: res[k] for k in ("pid", "type")})[:600]))] + _gasc_lines(case, res) + _gasclex_lines(case, res)
 
     def oracle(self, case, res):
         try:
@@ -818,6 +818,68 @@ def lex_real(text):
     except ValueError:
         return None, None
     return words, floats
+
+
+GASCLEX_MAX_CHARS = 3000    # the generated lexer works on Lean strings through their character lists (each `read(1)` is linear)
+
+
+def lex_real_positions(text):
+    """the tokens of the REAL `Lexer` as (type, value, lineno, column) and how the iteration ended (`END` = StopIteration, `BAD` = ValueError)"""
+    from swcgeom.transforms.neurolucida_asc import Lexer
+
+    toks, end = [], "END"
+    try:
+        for tok in Lexer(io.StringIO(text)):
+            toks.append((tok.type.value, tok.value, tok.lineno, tok.column))
+    except ValueError:
+        end = "BAD"
+    return toks, end
+
+
+def _gasclex_lines(case, res):
+    """the `Lexer` GENERATED from the current source (`__init__`, `__next__`, `_read_word`, `_read_char`, `_read_line`, `_token`) run on the
+    text and compared token by token (type, value, line, column) with the real `Lexer`; then generated lexer + generated parser + generated
+    walk (`gasctext`) against the real `from_stream`"""
+    text = case["text"]
+    if len(text) > GASCLEX_MAX_CHARS:
+        return []
+    toks, end = lex_real_positions(text)
+
+    def same_toks(got):
+        words = got.split(" ")
+        if words[-1] != end or len(words) - 1 != len(toks):
+            return False
+        for w, (ty, val, ln, col) in zip(words, toks):
+            head, pos = w.rsplit("@", 1)
+            t, v = head.split(":", 1)
+            if int(t) != ty or pos != f"{ln}:{col}":
+                return False
+            if isinstance(val, float):
+                if not v.startswith("F") or float(sci_value(v[1:])) != val:
+                    return False
+            elif v != ("_" if val == "" else ".".join(str(ord(c)) for c in val)):
+                return False
+        return True
+
+    out = [(f"gasclex cp={cps(text)}", Expect(same_toks, "real=" + repr(toks)[:600] + " " + end))]
+    if end == "BAD":
+        return out             # the eager composition is only meaningful when the lexer does not raise
+    if "exc" in res:
+        return out + [(f"gasctext cp={cps(text)}", "error")] if res["exc"] == "ValueError" else out
+
+    def same_table(got):
+        head, *rows = got.split(" | ")
+        if head != f"ok {res['n']}" or len(rows) != res["n"]:
+            return False
+        for k, r in enumerate(rows):
+            f = r.split()
+            if int(f[0]) != res["id"][k] or int(f[1]) != res["type"][k] or int(f[6]) != res["pid"][k]:
+                return False
+            if [float(np.float32(float(sci_value(v)))) for v in f[2:6]] != res["xyzr"][k]:
+                return False
+        return True
+
+    return out + [(f"gasctext cp={cps(text)}", Expect(same_table, "impl=" + repr({k: res[k] for k in ("id", "pid", "type")})[:600]))]
 
 
 def _gasc_lines(case, res):
